@@ -107,7 +107,10 @@ def mask_case(ctx, lines, pend, asym=False, pinned=None):
         if asym:
             B = (r.rand(n, n) < 0.3).astype(float); np.fill_diagonal(B, 0)
         else:
-            B = np.triu((r.rand(n, n) < float(r.choice([0.1, 0.3, 0.5]))).astype(float), 1); B = B + B.T
+            B = np.triu((r.rand(n, n) < float(r.choice([0.1, 0.3, 0.5]))).astype(float), 1)
+            if r.rand() < 0.4:   # "nonzero" is what counts: signed / non-unit mask values
+                B = B * r.choice([-2, -1, 1, 2], size=(n, n)); ctx.count(fn + ':signed-mask')
+            B = B + B.T
         ms = int(r.choice([1, 2, 4])); seed = int(r.randint(1, 2 ** 31 - 1))
     res = run_impl(fn, A, ms, seed, B=B, t=1.0)
     case = {'fn': fn, 'A': A.astype(int).tolist(), 'B': B.astype(int).tolist(), 'itr': ms, 'seed': seed}
